@@ -48,6 +48,14 @@ def pipeline(draw, threaded_ops, extra_src_exc=()):
         if op == 'buffer':
             stages.append({'op': 'buffer', 'maxsize': draw(SMALL)})
             have_threaded = True
+        elif op == 'fifo':
+            stg = draw(functional_stage(op, n))
+            stg['capacity'] = draw(SMALL)
+            stg['pool'] = draw(st.sampled_from([1, 2, 3]))
+            stg['rx'] = draw(st.booleans())
+            stg['rexc'] = draw(st.booleans())
+            stages.append(stg)
+            have_threaded = True
         elif op in ('parmap', 'parmap_async'):
             stg = draw(functional_stage(op, n))
             stg['c'] = draw(SMALL)
@@ -151,6 +159,8 @@ def _finish(spec, out, box, outs, term, close_exc, exp_outs, exp_term):
             sizes.append(f"buffer{min(s['maxsize'], 3)}")
         elif s['op'].startswith('parmap'):
             sizes.append(f"{s['op']}_c{min(s['c'], 3)}")
+        elif s['op'] == 'fifo':
+            sizes.append(f"fifo_cap{min(s['capacity'], 3)}")
     nontrivial = (early or failed) and box.get('in_flight', 0) > 0
     return CaseInfo(
         nontrivial=nontrivial,
@@ -255,7 +265,7 @@ FAMILIES = [
     Family(
         name='F1_sync',
         engine='sim',
-        strategy=pipeline(['buffer', 'parmap', 'parmap', 'parmap_async'], extra_src_exc=('StopRequested', 'StopRequested')),
+        strategy=pipeline(['buffer', 'parmap', 'parmap', 'parmap_async', 'fifo'], extra_src_exc=('StopRequested', 'StopRequested')),
         run=run_sync,
         quick=3000,
         thorough=200_000,
